@@ -3,7 +3,7 @@
 
   Property theorems only.  Every hash-container walk whose order could reach the output is a
   parameter of the model (`Orders`: the affiliates of a security when a global split is expanded,
-  the securities map, the security-gains map and each security's year map, and in the cost report
+  the securities map (which is also the key set of the security-gains map) and each security's year map, and in the cost report
   the security set and the day map).  The theorems say that the output is the same for all
   choices of these orders; they hold for every input, any number of securities and affiliates, any
   ledger function and any calendar.
@@ -52,8 +52,8 @@ theorem C09_deterministic (o o' : Orders) (ho : o.Ok) (ho' : o'.Ok) (yearOf : In
   have hrows : allCostRows o dflt ledger inp = allCostRows o' dflt ledger inp := by
     unfold allCostRows; rw [hres, hpo]
   have hany := any_congr_perm (order_perm ho.secs ho'.secs (inp.map (·.1))) (fun s => hasConflict (txsOf inp s))
-  have hagg := aggTable_congr yearOf ((inp.map (·.1)).map (fun s => (resultOf o' dflt ledger inp s).toResult))
-    ho.gains ho.years ho'.gains ho'.years full
+  have hagg := aggTable_congr yearOf ((printOrder o' inp).map (fun s => (resultOf o' dflt ledger inp s).toResult))
+    id_isOrder ho.years id_isOrder ho'.years full
   unfold appOutput
   simp only [hres, hpo, hany, hagg]
   split
@@ -85,10 +85,13 @@ theorem C09_summary_deterministic {τ : Type} (o o' : Orders) (ho : o.Ok) (ho' :
   simp only [hres, hpo, hany, hany2]
 
 /-- **C09 (what the source says, re-read by the translator on every run).**  The affiliates of a
-    global split are sorted by id, and a year's day is replaced only by a strictly higher total
-    (so that, the days being visited in date order, the earliest of tied days stays). -/
+    global split are sorted by id; a year's day is replaced only by a strictly higher total and the
+    days are visited in date order (so the earliest of tied days stays); `all_deltas`, the second
+    loop of the cost report and the aggregate gains walk the securities in sorted order. -/
 theorem C09_source_facts :
-    Gen.splitAffSortKeys = "a.id().cmp(b.id())" ∧ Gen.yearlyMaxCmp = "<" := by decide
+    Gen.splitAffSortKeys = "a.id().cmp(b.id())" ∧ Gen.yearlyMaxCmp = "<" ∧
+    Gen.yearlyMaxWalk = "sorted_days" ∧ Gen.allDeltasWalk = "sorted_delta_results" ∧
+    Gen.costsSecondLoopWalk = "sorted_secs" ∧ Gen.aggregateGainsWalk = "sorted_secs" := by decide
 
 end Acb
 
@@ -142,12 +145,12 @@ private def exLedger (s : Nat) (txs : List STx) : SecOut :=
                                           dflt := t.aff == some 0, aff := t.aff.getD 0 },
                                 gain := if t.isSplit then none else some 1 }) }
 private def exInp : Inputs := [(1, exTxs), (0, [{ trade := 4, isSplit := false, aff := some 0, tag := 7 }])]
-private def oId : Orders := ⟨id, id, id, id, id, id⟩
-private def oRev : Orders := ⟨List.reverse, List.reverse, List.reverse, List.reverse, List.reverse, List.reverse⟩
+private def oId : Orders := ⟨id, id, id, id, id⟩
+private def oRev : Orders := ⟨List.reverse, List.reverse, List.reverse, List.reverse, List.reverse⟩
 
 example : oId.Ok ∧ oRev.Ok :=
-  ⟨⟨id_isOrder, id_isOrder, id_isOrder, id_isOrder, id_isOrder, id_isOrder⟩,
-   ⟨reverse_isOrder, reverse_isOrder, reverse_isOrder, reverse_isOrder, reverse_isOrder, reverse_isOrder⟩⟩
+  ⟨⟨id_isOrder, id_isOrder, id_isOrder, id_isOrder, id_isOrder⟩,
+   ⟨reverse_isOrder, reverse_isOrder, reverse_isOrder, reverse_isOrder, reverse_isOrder⟩⟩
 
 private def exGet {α : Type} (o : Orders) (f : AppOut → α) : Option α :=
   match appOutput o (fun _ => 2020) 0 exLedger true true exInp with
